@@ -1,6 +1,7 @@
 package main
 
 import (
+	"crypto/tls"
 	"io"
 	"net"
 	"time"
@@ -18,7 +19,36 @@ type stepConn struct {
 	next   int      // requests handed out so far
 	outs   [][]byte // outs[i] = bytes written while request i was the current one
 	closed bool
-	onRead func(i int) // called with the index (within this connection) of the request being handed out
+	onRead func(i int)  // called with the index (within this connection) of the request being handed out
+	peer   *net.TCPAddr // remote address of the connection (nil: 127.0.0.1:40000)
+}
+
+// connAttr: what a request inherits from the CONNECTION it arrives on. Two requests with
+// different attributes can never share a keep-alive connection.
+type connAttr struct {
+	TLS  bool   // the server sees a TLS connection (c.Scheme() == "https" without any header)
+	Peer string // remote "ip:port" ("" = 127.0.0.1:40000)
+}
+
+// tlsStepConn is a stepConn the server takes for a TLS connection: fasthttp's RequestCtx.IsTLS
+// asks for exactly these two methods. No ALPN protocol is negotiated, so HTTP/1.1 is served.
+type tlsStepConn struct{ *stepConn }
+
+func (tlsStepConn) Handshake() error                     { return nil }
+func (tlsStepConn) ConnectionState() tls.ConnectionState { return tls.ConnectionState{} }
+
+func makeConn(a connAttr, sc *stepConn) net.Conn {
+	if a.Peer != "" {
+		addr, err := net.ResolveTCPAddr("tcp", a.Peer)
+		if err != nil {
+			panic("bad peer address " + a.Peer)
+		}
+		sc.peer = addr
+	}
+	if a.TLS {
+		return tlsStepConn{sc}
+	}
+	return sc
 }
 
 func (c *stepConn) Read(p []byte) (int, error) {
@@ -48,6 +78,9 @@ func (c *stepConn) Write(p []byte) (int, error) {
 func (c *stepConn) Close() error        { c.closed = true; return nil }
 func (c *stepConn) LocalAddr() net.Addr { return &net.TCPAddr{IP: net.IPv4(127, 0, 0, 1), Port: 80} }
 func (c *stepConn) RemoteAddr() net.Addr {
+	if c.peer != nil {
+		return c.peer
+	}
 	return &net.TCPAddr{IP: net.IPv4(127, 0, 0, 1), Port: 40000}
 }
 func (c *stepConn) SetDeadline(time.Time) error      { return nil }
